@@ -65,7 +65,7 @@ Ltac close Hi Ha Hc Hpv Hpc Ht w v facts :=
 
 Ltac unfold_ops :=
   unfold step_ok, step_m, step_s; unfold assign_body, assign_null, swap_m; unfold swap_body;
-  unfold closure_ctor, null_ctor, copy_ctor, move_ctor, dtor, call_m, bool_m, end_of_storage;
+  unfold closure_ctor, null_ctor, null_target_ctor, copy_ctor, move_ctor, dtor, call_m, bool_m, end_of_storage;
   unfold copy_thunk, relocate_thunk, destroy_thunk, invoke_thunk.
 
 Lemma step_swap_ok : forall stateless n s a w v, inv s -> rel s a -> in_range n (OSwap w v) = true ->
@@ -191,6 +191,20 @@ Proof.
   two_wrappers Hi Ha Hc Hpv Hpc Ht w v.
 Qed.
 
+Lemma step_assign_null_fn_ok : forall stateless n s a w, inv s -> rel s a -> in_range n (OAssignNullFn w) = true ->
+  step_ok stateless n s a (OAssignNullFn w).
+Proof.
+  intros stateless n s a w [Hi [Hpv [Hpc Ht]]] [Ha Hc] Hr. unfold_ops. rewrite Hr. cbn [negb].
+  one_wrapper Hi Ha Hc Hpv Hpc Ht w.
+Qed.
+
+Lemma step_ctor_null_fn_ok : forall stateless n s a w, inv s -> rel s a -> in_range n (OCtorNullFn w) = true ->
+  step_ok stateless n s a (OCtorNullFn w).
+Proof.
+  intros stateless n s a w [Hi [Hpv [Hpc Ht]]] [Ha Hc] Hr. unfold_ops. rewrite Hr. cbn [negb].
+  one_wrapper Hi Ha Hc Hpv Hpc Ht w.
+Qed.
+
 (** one step, any operation (out-of-range wrapper indices are skipped on both sides) *)
 Lemma step_refines : forall stateless n s a o, inv s -> rel s a -> step_ok stateless n s a o.
 Proof.
@@ -210,6 +224,8 @@ Proof.
     + apply step_conv_move_ok; assumption.
     + apply step_ctor_target_ok; assumption.
     + apply step_ctor_null_ok; assumption.
+    + apply step_assign_null_fn_ok; assumption.
+    + apply step_ctor_null_fn_ok; assumption.
   - exists s. unfold step_m, step_s. rewrite Hr. cbn [negb fst snd]. repeat split; try apply Hinv; apply Hrel.
 Qed.
 
@@ -406,6 +422,26 @@ Proof.
   rewrite Hr in *. cbn [negb fst snd] in *. exists s'. split; [exact H1|]. split; [exact H2|]. repeat split.
   - rewrite H3. red_state. rewrite Nat.eqb_refl. reflexivity.
   - intros i Hne. rewrite H3. red_state. destruct (Nat.eqb_spec i w) as [->|_]; [congruence|reflexivity].
+Qed.
+
+(* a null function pointer / null member pointer is no target: assigning or constructing from it empties the wrapper *)
+Theorem null_fn_empties : forall stateless n s w, inv s -> (w < n)%nat ->
+  (exists s', step_m stateless n s (OAssignNullFn w) = Good (s', TAck) /\ inv s' /\ abs_slot s' w = None /\
+              (forall i, i <> w -> abs_slot s' i = abs_slot s i)) /\
+  (exists s', step_m stateless n s (OCtorNullFn w) = Good (s', TAck) /\ inv s' /\ abs_slot s' w = None /\
+              (forall i, i <> w -> abs_slot s' i = abs_slot s i)).
+Proof.
+  intros stateless n s w Hinv Hw. split.
+  - destruct (step_on_abs stateless n s (OAssignNullFn w) Hinv) as [s' [H1 [H2 H3]]].
+    unfold step_s in *. assert (Hr : in_range n (OAssignNullFn w) = true) by (cbn; apply Nat.ltb_lt; exact Hw).
+    rewrite Hr in *. cbn [negb fst snd] in *. exists s'. split; [exact H1|]. split; [exact H2|]. repeat split.
+    + rewrite H3. red_state. rewrite Nat.eqb_refl. reflexivity.
+    + intros i Hne. rewrite H3. red_state. destruct (Nat.eqb_spec i w) as [->|_]; [congruence|reflexivity].
+  - destruct (step_on_abs stateless n s (OCtorNullFn w) Hinv) as [s' [H1 [H2 H3]]].
+    unfold step_s in *. assert (Hr : in_range n (OCtorNullFn w) = true) by (cbn; apply Nat.ltb_lt; exact Hw).
+    rewrite Hr in *. cbn [negb fst snd] in *. exists s'. split; [exact H1|]. split; [exact H2|]. repeat split.
+    + rewrite H3. red_state. rewrite Nat.eqb_refl. reflexivity.
+    + intros i Hne. rewrite H3. red_state. destruct (Nat.eqb_spec i w) as [->|_]; [congruence|reflexivity].
 Qed.
 
 (* operator bool reports exactly emptiness *)
